@@ -248,6 +248,13 @@ impl<'tcx> Cx<'tcx> {
             }
             _ => {}
         }
+        if let Const::Val(ConstValue::Scalar(mir::interpret::Scalar::Ptr(ptr, _)), _) = c {
+            if let Some(mir::interpret::GlobalAlloc::Static(sd)) =
+                self.tcx.try_get_global_alloc(ptr.provenance.alloc_id())
+            {
+                o.s("static", &self.path(sd));
+            }
+        }
         if let Const::Unevaluated(u, _) = c {
             if u.promoted.is_none() {
                 o.s("item", &self.path(u.def));
